@@ -7,14 +7,17 @@
    of theorems is proved.  Switches:
      jv_close_joined  : resolve's final block closes p.joined (false = seeded change C11-3)
      jv_alloc_table   : Join allocates the other promise's client table (false = as found: F11c)
+     jv_refs_sum      : Join adds all of p's clientsRefs to the promise joined onto (false = seeded C11-r2-1: ++)
    No proofs in this file. *)
 From CV Require Import Promise.Promise.
 Open Scope Z_scope.
 
-Record jvariant := { jv_close_joined : bool; jv_alloc_table : bool }.
-Definition jfixed : jvariant := {| jv_close_joined := true; jv_alloc_table := true |}.
-Definition jseed3 : jvariant := {| jv_close_joined := false; jv_alloc_table := true |}.
-Definition jf11c : jvariant := {| jv_close_joined := true; jv_alloc_table := false |}.
+Record jvariant := { jv_close_joined : bool; jv_alloc_table : bool; jv_refs_sum : bool }.
+Definition jfixed : jvariant := {| jv_close_joined := true; jv_alloc_table := true; jv_refs_sum := true |}.
+Definition jseed3 : jvariant := {| jv_close_joined := false; jv_alloc_table := true; jv_refs_sum := true |}.
+Definition jf11c : jvariant := {| jv_close_joined := true; jv_alloc_table := false; jv_refs_sum := true |}.
+(* seeded change C11-r2-1: Join hands the promise joined onto one reference instead of all of p's *)
+Definition jrefs1 : jvariant := {| jv_close_joined := true; jv_alloc_table := true; jv_refs_sum := false |}.
 
 Inductive jop :=
 | JFulfill (k : nat) (caps : list (path * Z))
@@ -304,7 +307,7 @@ Definition sec_join_par (v : jvariant) (c : jconfig) (t : nat) (th : jthread) : 
       let q1 := sp_crefs (sp_hastable (sp_clients (sp_signals q (p_signals q ++ p_signals p))
                                                   (merge_tab (p_clients q) (p_clients p)))
                                       (p_hastable q || negb (match p_clients p with [] => true | _ => false end)))
-                         (p_crefs q + p_crefs p) in
+                         (if jv_refs_sum v then p_crefs q + p_crefs p else p_crefs q + 1) in
       Some (sett (setp (setp c k p1) par q1) t (jfinish th ORet))
   else if is_pres q then
     Some (sett (setp c k (sp_mu (sp_joined p COpen) None)) t (jgoto th QJWaitRes))
